@@ -1,0 +1,35 @@
+//go:build verif
+
+package pokertable
+
+import (
+	"github.com/weedbox/pokertable/open_game_manager"
+	"github.com/weedbox/pokertable/seat_manager"
+)
+
+// Read-only accessors for the verification harness (/verif). Compiled only with -tags verif;
+// they add no behaviour and are absent from normal builds.
+
+// VerifSeatManager returns the seat manager of an engine created by NewTableEngine (nil before CreateTable).
+func VerifSeatManager(e TableEngine) seat_manager.SeatManager {
+	if te, ok := e.(*tableEngine); ok {
+		return te.sm
+	}
+	return nil
+}
+
+// VerifOpenGameManager returns the open-game gate of an engine created by NewTableEngine (nil before CreateTable).
+func VerifOpenGameManager(e TableEngine) open_game_manager.OpenGameManager {
+	if te, ok := e.(*tableEngine); ok {
+		return te.ogm
+	}
+	return nil
+}
+
+// VerifIsReleased reports the engine's released flag.
+func VerifIsReleased(e TableEngine) bool {
+	if te, ok := e.(*tableEngine); ok {
+		return te.isReleased
+	}
+	return false
+}
